@@ -174,3 +174,16 @@ mod tests {
         };
     }
 }
+
+#[cfg(qcow2_rs_verif)]
+impl L1Table {
+    /// verification hook: dirty block queue, in order
+    pub fn verif_dirty_blocks(&self) -> Vec<u32> {
+        self.dirty_blocks.borrow().iter().copied().collect()
+    }
+
+    /// verification hook: number of entries valid per header
+    pub fn verif_header_entries(&self) -> u32 {
+        self.header_entries
+    }
+}
